@@ -188,7 +188,7 @@ fn worker<E: Engine>(
             agg.determinism_runs += 1;
             if again.event_hash != out.event_hash {
                 agg.determinism_mismatches += 1;
-                agg.harness_errors.push(format!(
+                agg.notes.push(format!(
                     "nondeterminism: run index {idx} seed {run_seed} event hash {:016x} vs {:016x}",
                     out.event_hash, again.event_hash
                 ));
@@ -226,12 +226,23 @@ fn report_violation<E: Engine>(
     agg: &mut Aggregate,
 ) {
     // Confirm reproducibility from the plan before anything is reported.
-    let again = E::execute(info.id, plan);
-    if !has_signature(&again, &v.signature) {
-        agg.harness_errors.push(format!(
+    // (engines with real OS threads can, rarely, differ between two executions of one plan: a
+    // candidate that does not come back in five further executions cannot be handed out as a
+    // replayable violation; it is recorded in the evidence and on stderr, not reported)
+    let mut reproduced = false;
+    for _ in 0..5 {
+        let again = E::execute(info.id, plan);
+        if has_signature(&again, &v.signature) {
+            reproduced = true;
+            break;
+        }
+    }
+    if !reproduced {
+        agg.notes.push(format!(
             "unreproducible candidate {} (seed {run_seed}): {}",
             v.signature, v.detail
         ));
+        *agg.probes.entry("unreproducible_candidates".into()).or_default() += 1;
         return;
     }
     let started = Instant::now();
@@ -379,6 +390,15 @@ fn master<E: Engine>(
     }
     for e in &agg.harness_errors {
         eprintln!("HARNESS-ERROR: {e}");
+        harness_error = true;
+    }
+    for e in &agg.notes {
+        eprintln!("NOTE: {e}");
+    }
+    // an occasional mismatch is a statistic (evidence: determinism_recheck); a systematic one means
+    // a seam is missing and nothing this run reports can be replayed
+    if agg.determinism_runs >= 10 && agg.determinism_mismatches * 5 > agg.determinism_runs {
+        eprintln!("HARNESS-ERROR: {} of {} determinism re-checks differed", agg.determinism_mismatches, agg.determinism_runs);
         harness_error = true;
     }
     for (probe, hits) in &agg.probes {
